@@ -114,12 +114,19 @@ def check_C09(ctx):
     tlc_mc(ctx, 'MC_Wal', 'MC_Wal_quick.cfg', timeout=280, tag='mc-wal-quick')
     if not ctx.quick():
         tlc_mc(ctx, 'MC_Wal', 'MC_Wal_thorough.cfg', timeout=1500, tag='mc-wal-thorough')
-    n = 250 if ctx.quick() else 2500
+    n = 500 if ctx.quick() else 4000
     behs = tlc_sim(ctx, 'GEN_Wal', 'GEN_Wal.cfg', n, 60, ctx.seed * 7 + 3, timeout=600, tag='gen-wal')
+    if not ctx.quick():
+        behs += tlc_sim(ctx, 'GEN_Wal', 'GEN_Wal_long.cfg', 500, 150, ctx.seed * 7 + 4, timeout=900, tag='gen-wal-long')
     behs = c09_corpus() + behs
     ok, bad = wal_replay_all(ctx, behs, 'c09', chunks=5 if ctx.quick() else 14)
-    if not c09_selftest(ctx, behs[-40:]) and not bad:
-        raise Infra('binding self-test: no suitable behaviour')
+    # (on a tree that disagrees with the specification the self-test may be impossible: the disagreements are the verdict then)
+    try:
+        if not c09_selftest(ctx, behs[-40:]) and not bad:
+            raise Infra('binding self-test: no suitable behaviour')
+    except Infra:
+        if not bad:
+            raise
     sweeps = 0
     if not ctx.quick():
         sweep = tlc_sim(ctx, 'GEN_Wal', 'GEN_Wal_sweep.cfg', 1, 1000, ctx.seed, timeout=900, tag='gen-wal-sweep')
@@ -221,7 +228,7 @@ def random_logs(seed, n, interior):
             if r < 0.5:
                 return D(k)
             if r < 0.65:
-                return B(*[P(rng.choice(KEYS[:7]), val()) if rng.random() < 0.7 else D(rng.choice(KEYS[:7])) for _ in range(rng.randint(2, 3))])
+                return B(*[P(bk, val()) if rng.random() < 0.7 else D(bk) for bk in rng.sample(KEYS[:7], rng.randint(2, 3))])
             size = rng.choice([32750, 32768, 33000, 40000, 65600, 70000])
             return P(k, val(), size, rng.choice(['rand', 'rand', 'images', 'chunkentry']))
         nfiles = rng.randint(1, 3)
@@ -243,9 +250,13 @@ def run_log(ctx, spec, ex):
 
     def work(w):
         out = os.path.join(d, f'out{w}.ndjson')
-        p = ctx.run_kvh(['walfault', '-spec', sp, '-work', os.path.join(d, 'w'), '-seed', str(ctx.seed), '-worker', str(w), '-of', str(WORKERS),
-                         '-out', out], timeout=1200, check=False)
-        return w, p.returncode, (read_ndjson(out) if os.path.exists(out) else [])
+        try:
+            p = ctx.run_kvh(['walfault', '-spec', sp, '-work', os.path.join(d, 'w'), '-seed', str(ctx.seed), '-worker', str(w), '-of', str(WORKERS),
+                             '-out', out], timeout=400 if ctx.quick() else 1500, check=False)
+            rc = p.returncode
+        except Infra:
+            rc = 'timeout'       # the code under test hung on one of this worker's faults: found below
+        return w, rc, (read_ndjson(out) if os.path.exists(out) else [])
     futs = [ex.submit(work, w) for w in range(WORKERS)]
     return d, sp, nfaults, futs
 
@@ -259,26 +270,39 @@ def collect_log(ctx, spec, d, sp, nfaults, futs):
                 logline = r
             elif r.get('e') == 'fault':
                 lines[r['j']] = r
-    # faults without an outcome: the worker died or hung inside the code under test - re-run each alone
+    # faults without an outcome: the worker died or hung inside the code under test - each is re-run alone; those that
+    # again end without an outcome are recorded as failed openings
     missing = [j for j in range(nfaults) if j not in lines]
-    for j in missing[:20]:
+    plan = read_ndjson(os.path.join(d, 'plan.ndjson')) if missing else []
+    dead = 0
+
+    def alone(j):
         out = os.path.join(d, f'only{j}.ndjson')
         try:
             p = ctx.run_kvh(['walfault', '-spec', sp, '-work', os.path.join(d, f'o{j}'), '-seed', str(ctx.seed), '-only', str(j), '-out', out],
-                            timeout=120, check=False)
-            res = [r for r in (read_ndjson(out) if os.path.exists(out) else []) if r.get('e') == 'fault']
+                            timeout=90, check=False)
             err = (p.stderr or '')[-400:]
         except Infra as e:
-            res, err = [], str(e)
-        if res:
-            lines[j] = res[0]
-        else:
-            pl = read_ndjson(os.path.join(d, 'plan.ndjson'))[1 + j]
-            lines[j] = {'e': 'fault', 'log': spec['name'], 'j': j, 'fault': pl['fault'], 'dmg': pl['fault']['dmg'], 'open1': False, 'd1': [], 'st1': {},
-                        'acked': False, 'open2': False, 'd2': [], 'st2': {}, 'kept': True,
-                        'notes': ['the process opening the damaged directory died or hung: ' + err]}
-    if len(missing) > 20:
-        raise Infra(f"walfault {spec['name']}: {len(missing)} of {nfaults} faults have no outcome")
+            err = 'no result within 90 s'
+        res = [r for r in (read_ndjson(out) if os.path.exists(out) else []) if r.get('e') == 'fault']
+        return j, res, err
+    with cf.ThreadPoolExecutor(max_workers=WORKERS) as ex2:
+        for b0 in range(0, len(missing), WORKERS):
+            if dead >= 12:      # enough to report; the rest of this log's unfinished faults is not run
+                ctx.notes.setdefault('faults_not_run', {})[spec['name']] = len(missing) - b0
+                break
+            for j, res, err in ex2.map(alone, missing[b0:b0 + WORKERS]):
+                if logline is None and os.path.exists(os.path.join(d, f'only{j}.ndjson')):
+                    ll = [r for r in read_ndjson(os.path.join(d, f'only{j}.ndjson')) if r.get('e') == 'log']
+                    logline = ll[0] if ll else None
+                if res:
+                    lines[j] = res[0]
+                    continue
+                dead += 1
+                ft = plan[1 + j]['fault']
+                lines[j] = {'e': 'fault', 'log': spec['name'], 'j': j, 'fault': ft, 'dmg': ft['dmg'], 'open1': False, 'd1': [], 'st1': {},
+                            'acked': False, 'open2': False, 'd2': [], 'st2': {}, 'kept': True,
+                            'notes': ['the process that opened the damaged directory died or hung: ' + err]}
     if logline is None:
         raise Infra(f"walfault {spec['name']}: no layout line")
     return logline, [lines[j] for j in sorted(lines)]
@@ -346,16 +370,29 @@ def c10_known(prop, line, reasons):
     return None
 
 
-def one_fault(ctx, spec, j, tag):
+def one_fault(ctx, spec, j, tag, seed=None):
     d = ctx.sub('wf-one-' + tag)
     sp = os.path.join(d, 'spec.json')
     with open(sp, 'w') as f:
         json.dump(spec, f)
     out = os.path.join(d, 'out.ndjson')
-    ctx.run_kvh(['walfault', '-spec', sp, '-work', os.path.join(d, 'w'), '-seed', str(ctx.seed), '-only', str(j), '-out', out], timeout=300)
-    lines = read_ndjson(out)
+    seed = str(ctx.seed if seed is None else seed)
+    err = ''
+    try:
+        p = ctx.run_kvh(['walfault', '-spec', sp, '-work', os.path.join(d, 'w'), '-seed', seed, '-only', str(j), '-out', out], timeout=120, check=False)
+        err = (p.stderr or '')[-400:]
+    except Infra:
+        err = 'no result within 120 s'
+    lines = read_ndjson(out) if os.path.exists(out) else []
+    if len(lines) == 1 and lines[0].get('e') == 'log':
+        # the process died or hung while handling the damaged directory: that is the outcome
+        plan = os.path.join(d, 'plan.ndjson')
+        ctx.run_kvh(['walfault', '-spec', sp, '-work', os.path.join(d, 'p'), '-seed', seed, '-plan', '-out', plan], timeout=300)
+        ft = read_ndjson(plan)[1 + j]['fault']
+        lines.append({'e': 'fault', 'log': spec['name'], 'j': j, 'fault': ft, 'dmg': ft['dmg'], 'open1': False, 'd1': [], 'st1': {}, 'acked': False,
+                      'open2': False, 'd2': [], 'st2': {}, 'kept': True, 'notes': ['the process that opened the damaged directory died or hung: ' + err]})
     if len(lines) != 2:
-        raise Infra(f'walfault -only {j}: {len(lines)} lines')
+        raise Infra(f'walfault -only {j}: {len(lines)} lines; {err}')
     return lines, judge(ctx, lines, 'one-' + tag)
 
 
@@ -393,11 +430,13 @@ def check_C10(ctx):
                         'files larger than 4 KB: every header byte, the first 24 and last 4 payload bytes of every record and a seeded sample of the payload interior are damaged, not every byte',
                         'process-level damage model: what is on disk is exactly the damaged copy; no concurrent writer',
                         'entries behind the damage may or may not come back (the specification allows both); entries of later files likewise']
-    tlc_mc(ctx, 'MC_WalReader', 'MC_WalReader_quick.cfg' if ctx.quick() else 'MC_WalReader_thorough.cfg', timeout=280 if ctx.quick() else 1500, tag='mc-walreader')
+    tlc_mc(ctx, 'MC_WalReader', 'MC_WalReader_quick.cfg' if ctx.quick() else 'MC_WalReader_thorough.cfg', timeout=900 if ctx.quick() else 1500, tag='mc-walreader')
     interior = 40 if ctx.quick() else 120
     specs = fixed_logs(interior)
     specs += random_logs(ctx.seed, 2 if ctx.quick() else 56, 16 if ctx.quick() else 40)
     ctx.kvh()
+    import time
+    t0 = time.time()
     all_lines, owners, per_log = [], [], {}
     with cf.ThreadPoolExecutor(max_workers=WORKERS) as ex:
         started = [(s, run_log(ctx, s, ex)) for s in specs]
@@ -411,6 +450,7 @@ def check_C10(ctx):
                 owners.append((s, r))
     ctx.traces += sum(1 for o in owners if o[1] is not None)
     ctx.evaluations = ctx.traces
+    t1 = time.time()
     # TLC judges the outcomes in chunks of whole logs (a chunk starts with its "log" line), a few chunks at a time
     chunks, cur = [], []
     for i, (s, r) in enumerate(owners):
@@ -424,6 +464,7 @@ def check_C10(ctx):
         for ci, part in enumerate(ex.map(lambda a: judge(ctx, [all_lines[i] for i in a[1]], 'c10-%d' % a[0]), list(enumerate(chunks)))):
             for k, v in part.items():
                 rej[chunks[ci][k]] = v
+    ctx.notes['seconds'] = {'enumeration': round(t1 - t0, 1), 'tlc_judging': round(time.time() - t1, 1)}
     for s, r in owners:
         if r is not None:
             d = r['dmg']
@@ -432,9 +473,13 @@ def check_C10(ctx):
     ctx.notes['damage_classes'] = sorted({r['dmg']['kind'] for s, r in owners if r is not None})
     ctx.notes['outcomes_rejected'] = len(rej)
     ctx.samples = [{k: r[k] for k in ('log', 'fault', 'd1', 'd2', 'st2')} for s, r in owners[1:] if r is not None][:3]
-    for name in ('small', 'frag', 'embedded', 'single'):
-        if name in per_log and 'binding_selftest' not in ctx.notes:
-            c10_selftest(ctx, per_log[name])
+    try:
+        for name in ('small', 'frag', 'embedded', 'single'):
+            if name in per_log and 'binding_selftest' not in ctx.notes:
+                c10_selftest(ctx, per_log[name])
+    except Infra:
+        if not rej:     # on a tree that disagrees the self-test may be impossible: the disagreements are the verdict then
+            raise
     if 'binding_selftest' not in ctx.notes and not rej:
         raise Infra('binding self-test: no suitable outcome')
     # group the rejected outcomes: one representative per (log, damage class, retyped-to, reasons)
@@ -461,17 +506,17 @@ def check_C10(ctx):
             if k['id'] not in ctx.known_seen:
                 ctx.known_seen.append(k['id'])
             continue
-        path = save_replay(ctx, 'walfault', {'spec': s, 'j': r['j'], 'fault': r['fault'], 'reasons': reasons, 'outcome': r})
+        path = save_replay(ctx, 'walfault', {'spec': s, 'j': r['j'], 'seed': ctx.seed, 'fault': r['fault'], 'reasons': reasons, 'outcome': r})
         ctx.violations.append({'what': what, 'replay': path})
         if len(ctx.violations) >= 8:
             break
     write_evidence(ctx, 'fault_enumeration',
                    'KevoWalReader (reader at record grain, every damage descriptor, reopen + append + second replay) is model-checked exhaustively for '
                    'the bounds under mc_runs. Fault enumeration on the real code: logs written by the real writer (small entries, a batch, entries of 2-4 '
-                   'fragments, values made of record images); for the newest file EVERY truncation offset and per byte position the values low-bit-flipped / '
-                   '0x00 / 0xFF (type bytes: also every other type code) - every byte for files up to 4 KB, for larger files every header byte, the first 24 '
-                   'and last 4 payload bytes of each record and a seeded interior sample; older files: altered header / entry-header bytes. Per fault: '
-                   'ReplayWALDir, engine open, every key read, 3 further writes, close, ReplayWALDir, second open, every key read, files compared. Each '
+                   'fragments, values made of record / entry images); positions = every byte of a newest file up to 4 KB, for larger files every header byte, the '
+                   'first 24 and last 4 payload bytes of each record and a seeded interior sample; per position of the newest file a truncation at that offset '
+                   'and the byte set to low-bit-flipped / 0x00 / 0xFF (type bytes: also every other type code); older files: altered header / entry-header '
+                   'bytes. Per fault: ReplayWALDir, engine open, every key read, 4 further writes, close, ReplayWALDir, second open, every key read, files compared. Each '
                    'outcome is one trace line judged by TLC with the operators of KevoWalReader. traces = outcomes judged; distinct_nontrivial = distinct '
                    '(log, damage class, file, record, new type) descriptors reached',
                    extra={'exhaustive': False})
@@ -480,7 +525,7 @@ def check_C10(ctx):
 # ======================================================================================= replay of saved cases
 def replay_saved(ctx, payload):
     if 'spec' in payload:           # C10
-        lines, rj = one_fault(ctx, payload['spec'], payload['j'], 'replay')
+        lines, rj = one_fault(ctx, payload['spec'], payload['j'], 'replay', payload.get('seed'))
         if lines[1]['fault'] != payload['fault']:
             raise Infra('the saved fault number no longer denotes the same fault (harness plan changed)')
         if rj.get(1):
